@@ -125,7 +125,7 @@ end
 /-- a variable name as it can stand in a save file line: an identifier — non-empty, shorter than the 100-byte
     buffer of restore_object_from_buff, no blank / LF / NUL, not starting with `#` (comment lines) -/
 def nameOK (n : List Byte) : Bool :=
-  n != [] && decide (n.length < 100) && n.all (fun b => b != 32 && b != 10 && b != 0) && n.head? != some 35
+  n != [] && decide (n.length < varBufSize) && n.all (fun b => b != 32 && b != 10 && b != 0) && n.head? != some 35
 
 /-- **Domain of the object-level round trip**: the variable names are identifiers and pairwise different (two
     variables of one name at different inheritance levels are NOT restored correctly: open finding K6), every
